@@ -28,3 +28,33 @@ PROPS["C14"] = dict(
     assumptions=["clients close only handles they hold (the property's premise)",
                  "every exported FileCache method is one atomic step (it holds c.lock throughout — regenerated fact)"],
 )
+
+SEQ_NT_C01 = ["prev-is-prefix", "primary-rollover", "index-rollover", "primary-file-rolled", "put-update", "remove-present"]
+
+PROPS["C01"] = dict(
+    modules=[],
+    theorems=[],
+    runs=[dict(engine="seq", quick=400, thorough=30000, extra=["-profile", "c01"], nontrivial=SEQ_NT_C01)],
+    rule="traces of Put/Get/Has/GetSize/Remove/Flush/iteration on the real store (multihash and CID primaries, index bits 8..24, "
+         "index/primary file limits from 1 byte to the default, both immutability modes, keys clustered in <= 3 buckets with long "
+         "common prefixes, values of length 0 (nil and empty) upwards, malformed keys as a separate stream); every output, the "
+         "decoded in-memory state after every mutation and the byte-exact directory after every flush are compared with the Lean "
+         "model, and every output is checked against the map specification. Non-trivial = distinct trace in which index.Put took "
+         "the 'previous is a prefix' branch, a file rolled over, or an overwrite/remove hit a key.",
+    assumptions=["keys are well-formed multihashes/CIDs with digests >= 4 bytes, none a proper prefix of another (the property's premise)",
+                 "two keys with the same digest are one key to the store (aliases are exercised under C15)"],
+)
+
+PROPS["C04"] = dict(
+    modules=[],
+    theorems=[],
+    runs=[dict(engine="seq", quick=400, thorough=20000, extra=["-profile", "c04"],
+               nontrivial=["igc-acted", "pgc-acted", "pgc-relocated", "igc-unlinked", "pgc-unlinked"])],
+    requires_ops=["igc", "pgc"],
+    rule="C01-style traces on the multihash primary with small files, with index GC cycles (scan-free on/off) and primary GC "
+         "cycles (low-use thresholds 0/50/85/100) at arbitrary positions - including before any flush - and poll budgets that stop a "
+         "cycle midway; after every GC op every key is read back, and views/disk/sizes are compared with the model. "
+         "Non-trivial = distinct trace in which a cycle marked, merged, truncated, unlinked or relocated something. A failure is "
+         "attributed to C04 only if it needs a GC op to manifest (the shrunk trace still contains one).",
+    assumptions=["sequential histories (concurrent collectors are C06)", "GC cycles are invoked synchronously; the timers that start them are not modelled"],
+)
